@@ -801,6 +801,12 @@ impl<'tcx> Cx<'tcx> {
             // only consts without generic parameters of their own / of their parent can be evaluated polymorphically
             let ty = tcx.type_of(did).instantiate_identity().skip_norm_wip();
             if !(ty.is_integral() || ty.is_bool()) {
+                // a structured constant (e.g. a named result value): its initialiser body, so that a use of the name can be
+                // read as the aggregate it stands for
+                if tcx.is_mir_available(did) || matches!(kind, DefKind::Const { .. }) {
+                    let body = tcx.mir_for_ctfe(did);
+                    out.push((self.path(did), J::O(vec![("ty", J::s(ty.to_string())), ("body", J::O(self.body_json(did, body)))])));
+                }
                 continue;
             }
             if let Ok(val) = tcx.const_eval_poly(did) {
